@@ -676,6 +676,8 @@ class Interp:
                 outs.extend(self.loop_common(e, s0, one, always=True))
         return outs
 
+    carry_vecs = False    # (set on an instance) local vectors pushed to in a loop body are loop-carried too, see carried_states
+
     def carried_states(self, loop, st, runner, keep_initial=False):
         """The generic iteration of a loop starts in any state an earlier iteration can leave behind.  Candidates are the locals
         declared outside the loop body and assigned inside it; the values they can carry are found by a small fixpoint iteration:
@@ -690,11 +692,20 @@ class Interp:
                     if l['bind'] not in cand:
                         cand.append(l['bind'])
                     isbool[l['bind']] = hirq.strip_refs(n['l'].get('ty') or '') == 'bool'
+        wide = set()
+        if self.carry_vecs:
+            # a local vector the body pushes to is carried as well: the generic iteration starts with whatever the earlier ones have
+            # left in it (an unknown ('carried', binding, n)); what the body adds is then a 'vecpush' on top of that unknown
+            for n, _c in facts_mod.walk(loop['body']):
+                if n.get('k') == 'MethodCall' and (callee_of(n) or '').endswith('alloc::vec::Vec::<T, A>::push'):
+                    r = hirq.peel_refs(n['recv'])
+                    if r.get('k') == 'Path' and r.get('res') == 'local' and r['bind'] not in cand \
+                            and st.env.get(r['bind'], ('unk',))[0] in ('vec', 'vecpush', 'carried'):
+                        cand.append(r['bind']); isbool[r['bind']] = False; wide.add(r['bind'])
         if not cand:
             return [st]
         cand.sort()
         vals = {b: [st.env[b]] for b in cand}
-        wide = set()
         def simple(v):
             return v[0] == 'lit' or v == UNIT or (v[0] == 'ctor' and all(simple(x) for x in v[2]))
         def product(events):
@@ -1681,6 +1692,8 @@ def builtin_summary(I, cal, args, node, st):
         return [Out('val', ('lit', len(args[0][1]) == 0 if name == 'is_empty' else len(args[0][1])), st)]
     if name in ('is_empty', 'len') and args and args[0][0] == 'vec' and cal.startswith('alloc::vec::Vec'):
         return [Out('val', ('lit', len(args[0][1]) == 0 if name == 'is_empty' else len(args[0][1])), st)]
+    if name == 'is_empty' and args and args[0][0] == 'vecpush' and cal.startswith('alloc::vec::Vec'):
+        return [Out('val', FALSE, st)]          # a vector something was pushed to is not empty, whatever it held before
     if name in ('box_assume_init_into_vec_unsafe', 'into_vec'):
         arr = leaves(('x',) + tuple(args), lambda x: x[0] == 'array')
         if arr:
